@@ -458,6 +458,11 @@ class GenWalker:
                 if isinstance(a, (Opaque, Obj)):
                     return Opaque(ast.unparse(node), "str")
                 return str(a)
+            if f == "bool":
+                a = args[0] if args else False
+                if isinstance(a, (Opaque, Obj)):
+                    return Opaque(ast.unparse(node), "bool")
+                return bool(a)
             if f == "isinstance":
                 a, c = args[0], node.args[1]
                 names = [ast.unparse(e) for e in c.elts] if isinstance(c, ast.Tuple) else [ast.unparse(c)]
